@@ -226,6 +226,30 @@ the generator and never draws) -/
 def selectNextPlateEvents (rngGiven : Bool) : List Event :=
   if rngGiven then [] else [ev .fresh .newgen]
 
+/-- `select_next_plate` on a given score table (scores of the eligible plates in storage order):
+`plate_id_with_minimum_score` is `argmin` -- the FIRST minimal entry, no draw, whatever the table
+(ties included); the generator handed in only goes to the policy, which never draws -/
+def argminFirst : List Int → Option Nat
+  | [] => none
+  | x :: xs =>
+    match argminFirst xs with
+    | none => some 0
+    | some j => if xs[j]! < x then some (j + 1) else some 0
+
+def selectOnTable (rngGiven : Bool) (_scores : List Int) : List Event := selectNextPlateEvents rngGiven
+
+/-- the minimum of the table is attained more than once -/
+def minTied (scores : List Int) : Bool :=
+  match argminFirst scores with
+  | none => false
+  | some j => (scores.filter (fun x => x == scores[j]!)).length > 1
+
+/-- REGRESSION definition (seeded change S8-C18, not the code): ties for the minimum are broken with
+`rng.choice`, but the only caller passes no generator, so a fresh `default_rng()` is made -- only
+when the minimum is tied -/
+def selectOnTableOld (rngGiven : Bool) (scores : List Int) : List Event :=
+  selectNextPlateEvents rngGiven ++ (if minTied scores then [ev .fresh .newgen, ev .fresh .choice] else [])
+
 /-- fast_mvn.py:22-26 -/
 def mvnEvents (rngGiven : Bool) : List Event :=
   if rngGiven then [ev .supplied .normal] else [ev .fresh .newgen, ev .fresh .normal]
